@@ -155,6 +155,10 @@ type Engine struct {
 	// same digit run produce the same result, so the inner loop can skip
 	// the entire run instead of trying each digit.
 	digitRunSkipSafe bool
+
+	// compiledStrategy is the strategy selected at compile time. SetLongest(true)
+	// switches strategy to UseNFA and SetLongest(false) restores this one.
+	compiledStrategy Strategy
 }
 
 // Stats tracks execution statistics for performance analysis.
@@ -250,6 +254,15 @@ func (e *Engine) SubexpNames() []string {
 //   - longest=false (default): "a" wins (first branch)
 //   - longest=true: "ab" wins (longest match)
 func (e *Engine) SetLongest(longest bool) {
+	if longest && !e.longest {
+		// The DFA, reverse-search and literal strategies implement leftmost-first
+		// only (break-at-match DFAs, first-literal-wins scanners). Only the NFA
+		// engines honor the longest flag, so leftmost-longest searches use them.
+		e.compiledStrategy = e.strategy
+		e.strategy = UseNFA
+	} else if !longest && e.longest {
+		e.strategy = e.compiledStrategy
+	}
 	e.longest = longest
 	e.pikevm.SetLongest(longest)
 	if e.boundedBacktracker != nil {
